@@ -3,11 +3,13 @@ import numpy as np
 from harness import lib
 
 RULE = ("cases = redirect_tree on every topology up to the bound x every new root x sort on/off; cat_tree on every pair of topologies up to "
-        "the bounds x every junction pair x translate on/off x coincident / non-coincident placement, concretised at several lattice units and "
+        "the bounds x every junction pair x translate on/off x coincident / non-coincident / nearly coincident placement (junctions 0.01 apart at coordinates of several thousand), concretised at several lattice units and "
         "offsets (up to 2e4 in the thorough tier); non-trivial = at least 3 nodes in total and the new root / junction is not the old root; "
         "distinct by (op, topologies, arguments)")
 # the last quick placement is deliberately NOT exactly representable in float32 (translation leaves a rounding residue)
 PLACEMENTS_QUICK = [(1.0, (0, 0, 0)), (0.25, (0, 0, 0)), (1.0, (300, -200, 150)), (0.1, (300.3, -200.7, 150.9))]
+# co = 3 (junctions one lattice step apart) is concretised only here: a step of 0.01 at coordinates of several thousand on every axis
+PLACEMENT_NEAR = (0.01, (3000.5, -2000.25, 4000.75))
 PLACEMENTS_THOROUGH = PLACEMENTS_QUICK + [(0.5, (20000, -20000, 12345)), (2.0, (-1000, 1000, 0)), (0.37, (20000.5, -3000.1, 12345.7))]
 
 
@@ -23,7 +25,7 @@ def execute(c):
     off = off1
 
     # when translation is requested the result does not depend on where tree 2 starts: move it far away (different float32 binade)
-    far = (1234.56, -987.65, 5555.55) if (c["tr"] == 1 and lib.vid(c) % 2 == 0) else (0.0, 0.0, 0.0)
+    far = (1234.56, -987.65, 5555.55) if (c["tr"] == 1 and lib.vid(c) % 2 == 0 and c["co"] != 3) else (0.0, 0.0, 0.0)
 
     def mk(P, pos, ty, rad, base):
         n = len(P)
@@ -66,8 +68,10 @@ def run(ctx):
     cases, path = ctx.gen("Gen_Reroot", "Gen_Reroot.%s.cfg" % ctx.tier)
     places = PLACEMENTS_QUICK if ctx.tier == "quick" else PLACEMENTS_THOROUGH
     for k, pl in enumerate(places):
-        sub = [dict(c, _place=pl) for c in cases if (c["op"] == "cat" or k == 0)]
+        sub = [dict(c, _place=pl) for c in cases if ((c["op"] == "cat" and c["co"] != 3) or (c["op"] != "cat" and k == 0))]
         ctx.run_cases("enumerated-unit%g-off%d" % (pl[0], int(pl[1][0])), sub, path, execute, "Judge_Reroot", keyfn, nontrivial)
+    near = [dict(c, _place=PLACEMENT_NEAR) for c in cases if c["op"] == "cat" and c["co"] == 3]
+    ctx.run_cases("enumerated-near-junctions", near, path, execute, "Judge_Reroot", keyfn, nontrivial)
     ctx.assumptions += ["cat_tree: the types of the second tree's old root and junction node may come back exchanged (re-rooting documents that exchange) or not",
                         "coordinates are lattice values times a unit exactly representable in float32; translation residue up to 1e-3 units is quantised away"]
     return ctx.finish(rule=RULE)
